@@ -1,0 +1,44 @@
+//go:build verif
+
+package eni
+
+import (
+	"context"
+	"time"
+
+	"golang.org/x/time/rate"
+
+	"github.com/AliyunContainerService/terway/types/daemon"
+)
+
+// VerifSetRateLimit replaces the package-level cloud-call limiter used by NewLocal
+// (production: 1 call / 6 s) and returns the previous value.
+func VerifSetRateLimit(l rate.Limit) rate.Limit {
+	old := rateLimit
+	rateLimit = l
+	return old
+}
+
+// VerifSync runs one periodic cloud sync (production: every 1-2 min).
+func (l *Local) VerifSync() { l.sync() }
+
+// VerifLoad runs the restart-time load step without starting the workers.
+func (l *Local) VerifLoad(podResources []daemon.PodResources) error { return l.load(podResources) }
+
+// VerifClearInhibit moves the allocation-inhibit deadline into the past (virtual time).
+func (l *Local) VerifClearInhibit() {
+	l.cond.L.Lock()
+	l.ipAllocInhibitExpireAt = time.Time{}
+	l.cond.Broadcast()
+	l.cond.L.Unlock()
+}
+
+// VerifPending reports the queue lengths (allocating v4/v6, dangling v4/v6) under the ENI lock.
+func (l *Local) VerifPending() (int, int, int, int) {
+	l.cond.L.Lock()
+	defer l.cond.L.Unlock()
+	return l.allocatingV4.Len(), l.allocatingV6.Len(), len(l.dangingV4), len(l.dangingV6)
+}
+
+// VerifSyncPool runs one balancer round (production: every >= 2 min).
+func (m *Manager) VerifSyncPool(ctx context.Context) { m.syncPool(ctx) }
